@@ -52,6 +52,21 @@ Theorem C07_store_fill_buf_refines : forall st r scr,
 Proof. exact bs_fill_buf_refines. Qed.
 Print Assumptions C07_store_fill_buf_refines.
 
+(* a Read that answers Ok(0) although data is left and room is free (allowed by std::io::Read, not
+   expressible as a BufWin schedule): the window is repositioned, nothing is lost, nothing stale shows *)
+Theorem C07_store_fill_zero_spec : forall st r scr,
+  bs_inv st ->
+  match bs_fill_zero st r scr with
+  | SFillOk n st' r' =>
+      n = 0 /\ r' = r /\ bs_inv st' /\ length (s_buf st') = length (s_buf st) /\ s_owned st' = s_owned st /\
+      (if fill_early st then st' = st /\ bs_buf_len st = 0
+       else s_start st' = 0 /\ abs_of st' = mkbw (bs_buf_len st) (window st) 0 (s_prior st + s_start st))
+  | SFillFull st' r' => st' = st /\ r' = r /\ fill_early st = true /\ bs_buf_len st <> 0
+  | SFillIo _ _ | SFillCrash _ => False
+  end.
+Proof. exact bs_fill_zero_spec. Qed.
+Print Assumptions C07_store_fill_zero_spec.
+
 Theorem C07_store_get_refines : forall st i j,
   bs_inv st -> bs_get st i j = abs_get (absst_of st) i j.
 Proof. exact bs_get_refines. Qed.
